@@ -1007,6 +1007,30 @@ pub fn run_c15(cfg: &Cfg) -> (Part, Value, bool) {
     let hexchars: Vec<char> = "0123456789abcdefABCDEF".chars().collect();
     let mut hx: Vec<String> = strings_over(&hexchars, if q { 2 } else { 3 });
     hx.extend(strings_over(&['0', 'f', 'A', 'g', ' ', 'é', '１'], 4));
+    // characters that alias a valid digit under a narrowing cast or a case/width fold: code point
+    // = digit + 0x80, + 0x100, + 0x10000, the full-width forms, and neighbours of the digit ranges
+    let mut alias: Vec<char> = Vec::new();
+    for d in "01289afAFgG/:@`".chars() {
+        for off in [0x80u32, 0x100, 0x10000] {
+            if let Some(c) = char::from_u32(d as u32 + off) {
+                alias.push(c);
+            }
+        }
+        alias.push(d);
+    }
+    alias.extend(['０', '１', 'ａ', 'Ｆ', '٠', '١', '\u{0}', '\n', '+', '-', '_', 'x', 'X']);
+    for a in &alias {
+        for ctx in ["", "1", "0f", "A0a"] {
+            for pos in 0..=ctx.chars().count() {
+                let mut cs: Vec<char> = ctx.chars().collect();
+                cs.insert(pos, *a);
+                hx.push(cs.iter().collect());
+                let mut bs: Vec<char> = ctx.chars().map(|c| if c == '1' || c == 'f' || c == 'A' { '1' } else { '0' }).collect();
+                bs.insert(pos, *a);
+                bin.push(bs.iter().collect());
+            }
+        }
+    }
     // lattice strings around each capacity / the inline limit
     let mut lens: std::collections::BTreeSet<usize> = std::collections::BTreeSet::new();
     for k in FIXED_KINDS {
@@ -1072,7 +1096,7 @@ pub fn run_c15(cfg: &Cfg) -> (Part, Value, bool) {
                 if ms.is_empty() && valid && n > 5 && !p.has_sample("parse") {
                     p.sample("parse", json!({"kind": k.name(), "fn": if hex { "from_hex" } else { "from_binary" }, "string": s}));
                 }
-                record(p, if hex { "from_hex" } else { "from_binary" }, k.name(), "-", vec![], &|| format!("{} {} {}", if hex { "from_hex" } else { "from_binary" }, k.name(), if s.is_empty() { "\"\"".to_string() } else { format!("{:?}", s) }), ms);
+                record(p, if hex { "from_hex" } else { "from_binary" }, k.name(), "-", vec![], &|| format!("{} {} {}", if hex { "from_hex" } else { "from_binary" }, k.name(), serde_json::to_string(s).unwrap()), ms);
             });
             part = part.merge(p);
         }
